@@ -8,8 +8,10 @@ REGISTRY = {
     'C06': 'harness.c06',
     'C10': 'harness.session',
     'C11': 'harness.fitkernel',
+    'C12': 'harness.c12',
     'C13': 'harness.c13',
     'C14': 'harness.c14',
+    'C15': 'harness.c12',
     'C18': 'harness.session',
     'C19': 'harness.c19',
     'C20': 'harness.c20',
